@@ -109,7 +109,10 @@ CELL = re.compile(r'⟦(.*?)⟧', re.S)
 
 
 class Stuck(Exception):
-    """A rendering used more than 30 CPU-seconds or ran out of memory."""
+    """A rendering used more than 30 CPU-seconds, ran out of memory or
+    raised: the inputs are a valid tree, the tag's own cookie and a link of
+    its own page, so the tag has to render."""
+    kind = 'no-termination'
 
 
 def render(root, cookie=None, click=None, flag=None, opts=''):
@@ -122,6 +125,13 @@ def render(root, cookie=None, click=None, flag=None, opts=''):
         raise Stuck('rendering with cookie=%r click=%r flag=%r %s: %s' % (
             cookie and cookie[:80], click and (click[0], click[1][:80]),
             flag, opts, type(e).__name__))
+    except Exception as e:
+        x = Stuck('rendering with cookie=%r click=%r flag=%r %s raised %s: '
+                  '%s' % (cookie and cookie[:80],
+                          click and (click[0], click[1][:80]), flag, opts,
+                          type(e).__name__, str(e)[:200]))
+        x.kind = 'render-exception:' + type(e).__name__
+        raise x
 
 
 def render_(root, cookie=None, click=None, flag=None, opts=''):
@@ -285,7 +295,7 @@ def play(spec, history, opts=''):
     try:
         return play_(spec, history, opts)
     except Stuck as e:
-        return 'no-termination', 'tree %r history %r: %s' % (spec, history, e)
+        return e.kind, 'tree %r history %r: %s' % (spec, history, e)
 
 
 def play_(spec, history, opts=''):
@@ -409,7 +419,7 @@ def explore(spec, max_len, acc, budget, opts=''):
             return
         rec(set(), rows, cookie, [], False)
     except Stuck as e:
-        acc.fail('history:no-termination', dict(tree=spec,
+        acc.fail('history:' + e.kind, dict(tree=spec,
                                                 history=current[0],
                                                 opts=opts),
                  'tree %r (%s) history %r: %s' % (spec, opts, current[0], e))
@@ -533,7 +543,7 @@ def machine_class():
             return globals()['render'](root, *a, **kw)
         except Stuck as e:
             m = current_machine[0]
-            raise Violation('machine:no-termination',
+            raise Violation('machine:' + e.kind,
                             dict(tree=m.spec, history=m.history,
                                  opts=m.opts),
                             'tree %r (%s) history %r: %s' % (
@@ -612,7 +622,7 @@ def machine_class():
 
 
 def run_machine(acc, n, seed, steps):
-    from hypothesis import HealthCheck, seed as hseed, settings
+    from hypothesis import HealthCheck, Phase, seed as hseed, settings
     from hypothesis.stateful import run_state_machine_as_test
     M = machine_class()
     counter = {'n': 0}
@@ -635,6 +645,7 @@ def run_machine(acc, n, seed, steps):
             hseed(seed)(M),
             settings=settings(max_examples=n, stateful_step_count=steps,
                               deadline=None, database=None,
+                              phases=[Phase.generate, Phase.shrink],
                               report_multiple_bugs=False,
                               suppress_health_check=list(HealthCheck)))
     except Violation as v:
